@@ -430,8 +430,8 @@ static int restore_size (char **str, int is_mapping) {
   while ((c = *cp))
     {
       mb_span = mblen (cp, MB_CUR_MAX);
-      if (mb_span < 0)
-                    return -1;
+      if (mb_span < 1)
+        mb_span = 1; /* not a character in this locale: a byte like any other (strings may hold any byte) */
       cp += mb_span; /* don't check in the middle of a multibyte character */
       switch (c)
                     {
@@ -441,8 +441,8 @@ static int restore_size (char **str, int is_mapping) {
                     while ((c = *cp) != '"')
                       {
                               mb_span = mblen (cp, MB_CUR_MAX);
-                              if (mb_span < 0)
-                                return -1;
+                              if (mb_span < 1)
+                                mb_span = 1; /* not a character in this locale: a byte like any other */
                               cp += mb_span; /* don't check backslash in the middle of a multibyte character */
                               if ((c == '\0') || (c == '\\' && !*cp++))
                                 return 0;
